@@ -127,7 +127,7 @@ Definition field_accessor (f : field) : option accessor :=
 
 (* a device memory: address -> 16 bit register value; its registers as (high byte, low byte) *)
 Definition mem_regs (mem : N -> N) (a n : N) : list (N * N) :=
-  map (fun i => (mem (a + i) / 256, mem (a + i) mod 256)) (seqN n).
+  map (fun i => let w := mem (a + i) in (w / 256, w mod 256)) (seqN n).
 (* decoding the memory directly at the field's address with the field's type and byte order *)
 Definition direct_value (mem : N -> N) (f : field) : option aval :=
   match field_accessor f with
@@ -157,19 +157,21 @@ Definition device_reply (tcp : bool) (memw : N -> N) (memc : N -> bool) (request
     if 65536 <? s + q then exception_pdu fc ILLEGAL_DATA_ADDRESS
     else if (fc =? 1) || (fc =? 2)
     then rpdu (SPBytes fc u (pack_coils (map (fun i => memc (s + i)) (seqN k))))
-    else rpdu (SPBytes fc u (flat_map (fun i => w16 (memw (s + i))) (seqN k))) in
+    else rpdu (SPBytes fc u (flat_map (fun i => let w := memw (s + i) in [N.shiftr w 8; N.land w 255]) (seqN k))) in   (* = w16 w: high byte first *)
   if tcp then adu_tcp tid u pdu else adu_rtu u pdu.
 
 (* ---------- the memories of the correspondence cases: a seeded image ---------- *)
 Definition mem_word (seed a : N) : N :=
-  let h := (((a + 1) * (2 * seed + 1) * 40503) / 128) mod 65536 in
-  let mode := seed mod 4 in
-  if mode =? 0 then (32 + (h / 256) mod 95) * 256 + (32 + (h mod 256) mod 95)
-  else if mode =? 2 then (if h mod 3 =? 0 then 0 else if h mod 3 =? 1 then 65535 else h)
+  (* shifts and masks only (land 65535 = mod 65536): cheap in the extracted model *)
+  let h0 := (a + 1) * 40503 + seed * 25173 in
+  let h := N.land (N.lxor h0 (N.shiftr h0 7)) 65535 in
+  let mode := N.land seed 3 in
+  if mode =? 0 then (32 + N.land (N.shiftr h 8) 63) * 256 + (33 + N.land h 63)      (* printable text *)
+  else if mode =? 2 then (let m := N.land h 3 in if m =? 0 then 0 else if m =? 1 then 65535 else h)
   else h.
 Definition mem_coil (seed a : N) : bool := N.testbit (mem_word (seed + 1) a) 5.
 Definition dev_seed (ms : N) (srv : list N) (u : N) : N :=
-  (fold_left (fun h b => (h * 31 + b) mod 65536) srv ms * 257 + u) mod 65536.
+  N.land (fold_left (fun h b => N.land (h * 31 + b) 65535) srv ms * 257 + u) 65535.   (* land 65535 = mod 65536 *)
 
 (* ---------- C05: the statement on extraction outcomes ---------- *)
 (* what ExtractFields returned for one field *)
